@@ -1431,10 +1431,21 @@ func (w *World) readOnlyGlobal(g *ssa.Global) bool {
 				if cc.Value == v {
 					continue // calling a function read out of the table
 				}
-				// handed to a call: fine for values that cannot be written through
+				// handed to a call: fine for values that cannot be written through,
+				// and for a function of this package that only reads its parameter
 				switch v.Type().Underlying().(type) {
 				case *types.Map, *types.Slice, *types.Pointer:
-					return false
+					h := cc.StaticCallee()
+					if h == nil || !w.inPkg(h) || len(h.Blocks) == 0 {
+						return false
+					}
+					for i, a := range cc.Args {
+						if a == v {
+							if i >= len(h.Params) || !readOnlyUse(h.Params[i], depth+1) {
+								return false
+							}
+						}
+					}
 				}
 			case *ssa.MapUpdate:
 				if x.Map == v {
